@@ -86,6 +86,11 @@ pub fn erase_digits(s: &str) -> String {
 /// file part of a "file:line: message" panic description, without the line
 pub fn panic_site(p: &str) -> String {
     let file = p.split(':').next().unwrap_or("?");
+    // repository-relative path, whatever directory the repository was built from
+    let file = ["/base/src/", "/xlsx/src/"]
+        .iter()
+        .find_map(|m| file.find(m).map(|i| &file[i + 1..]))
+        .unwrap_or(file);
     let msg = p.splitn(3, ':').nth(2).unwrap_or("").trim();
     let msg: String = erase_digits(msg).chars().take(60).collect();
     format!("{file}|{msg}")
